@@ -11,10 +11,12 @@ TIE = "Tie.C05"
 DRIVER = "c05_driver.py"
 SHARD = 40
 THEOREMS = [
+    "C05_cache_transparent",
     "C05_cache_transparent_state",
     "C05_cache_transparent_static",
-    "C05_cache_transparent",
-    "C05_spec_rebase_invalidates",
+    "C05_answers_are_uncached",
+    "C05_spec_rebase_frame",
+    "C05_rebuild_outside_refuted",
 ]
 RULE = ("histories of 5-40 operations over 1-4 registries (invalidating, verifying, verifying over "
         "invalidating) built from (lookup, mutation, same lookup) triples whose key is chosen to be "
@@ -266,7 +268,7 @@ def gen_case(rng, n_target):
 
     weights = {"register": 7, "unregister": 3, "subscribe": 4, "unsubscribe": 2, "setregbases": 2,
                "setspecbases": 4, "classimplements": 3, "directlyprovides": 2, "alsoprovides": 2,
-               "nolongerprovides": 1, "rebuild": 0.3}
+               "nolongerprovides": 1}
     kinds = list(weights)
     ws = [weights[k] for k in kinds]
     guard = 0
@@ -309,8 +311,6 @@ def gen_case(rng, n_target):
             r, req, p = rng.choice(subs_seen)
             v = gen_value() if rng.random() < 0.6 else None
             emit(probe_subs(rng.choice(chain(r)), req, p), [k, r, req, p, v], k)
-        elif k == "rebuild":
-            ops.append([k, r])
         elif k == "setregbases":
             if n_regs < 2:
                 continue
@@ -412,6 +412,11 @@ def generate(run, tier):
 
 # --------------------------------------------------------------------------- Coq emission
 
+def _small(a):
+    """the 999999 separator of subscribers() answers is written 10001 (see Tie/C05.v norm1)"""
+    return [10001 if x == 999999 else x for x in a]
+
+
 def _cop_terms(case, obs):
     """one list of Coq cop terms + aligned answers + index map (driver op index -> cop index)"""
     terms, answers, index = [], [], {}
@@ -433,7 +438,7 @@ def _cop_terms(case, obs):
                     table[j] = s
                 wobs = {"obj_provides": [table.get(j, 0) for j in range(len(objects))]}
             terms.append("(CReg %s)" % RC.c_op(op, wobs, objects))
-            answers.append(obs["answers"][i])
+            answers.append(_small(obs["answers"][i]))
     return terms, answers, index
 
 
@@ -443,7 +448,7 @@ def coq_case(case, obs, mode):
     if obs["trouble"]:
         raise C.HarnessError("driver trouble: " + "; ".join(obs["trouble"][:3]))
     terms, answers, index = _cop_terms(case, obs)
-    erased = "[" + "; ".join("(%d, %s)" % (index[i], RC.c_lnat(a)) for i, a in obs["erased"]) + "]"
+    erased = "[" + "; ".join("(%d, %s)" % (index[i], RC.c_lnat(_small(a))) for i, a in obs["erased"]) + "]"
     return "(%s, %s,\n   [%s],\n   %s,\n   %s)" % (
         RC.c_graph(obs), RC.c_ifaces(obs), ";\n    ".join(terms), RC.c_answers(answers), erased)
 
